@@ -7,11 +7,14 @@ One output line per input line.  Producer: harness/collect_common.py.
   scenario collect|batch        reset
   classes p0 p1 …               class i derives from class p_i (< i) or, with `-`, directly from Agent;
                                 ids ≥ the number of classes are types that are not Agent subclasses
-  mrep attr a | mrep fn F | mrep meth F | mrep args k d G          model reporter (named m0, m1, … in order)
+  mrep attr a | mrep fn F | mrep part F | mrep meth F | mrep args k d G   model reporter (named m0, m1, … in order;
+                                                                   fn = lambda / def, part = functools.partial)
   arep attr a | arep fn A | arep meth A | arep args k d AG         agent reporter (a0, a1, …)
   trep T rep ; rep ; …                                             agent-type reporters of class T
   table t c0 c1 …
-    F: count | steps | sum a | get a      G: lin a | cnt      A: get a | id | twice a | steps     AG: lin a
+    F: count | steps | sum a | get a | req a     G: lin a | cnt | lreq a
+    A: get a | id | twice a | steps | req a      AG: lin a | lreq a
+    (`req a` / `lreq a` read the attribute directly: AttributeError when it is missing)
   -- scenario collect
   start                          construct the DataCollector
   create ty a=v … | remove id | step | mset a v | mapp a x | mdel a | aset id a v | adel id a
@@ -54,44 +57,60 @@ def parsePair (w : String) : Option (Nat × Val) :=
 def sumAttr (sn : Snap) (a : Nat) : Int :=
   sn.agents.foldl (fun acc ag => match getAttr ag.attrs a with | .int v => acc + v | _ => acc) 0
 
-def parseF : List String → Option (Snap → Val)
-  | ["count"] => some fun sn => .int sn.agents.length
-  | ["steps"] => some fun sn => .int sn.steps
-  | ["sum", a] => do let a ← a.toNat?; pure fun sn => .int (sumAttr sn a)
-  | ["get", a] => do let a ← a.toNat?; pure fun sn => getAttr sn.attrs a
+def needAttr (attrs : List (Nat × Val)) (a : Nat) : Except Err Val :=
+  match attrs.lookup a with
+  | some v => .ok v
+  | none => .error .attr
+
+def parseF : List String → Option (Snap → Except Err Val)
+  | ["count"] => some fun sn => .ok (.int sn.agents.length)
+  | ["steps"] => some fun sn => .ok (.int sn.steps)
+  | ["sum", a] => do let a ← a.toNat?; pure fun sn => .ok (.int (sumAttr sn a))
+  | ["get", a] => do let a ← a.toNat?; pure fun sn => .ok (getAttr sn.attrs a)
+  | ["req", a] => do let a ← a.toNat?; pure fun sn => needAttr sn.attrs a
   | _ => none
 
-def parseG : List String → Option (List Int → Snap → Val)
+def linVal (args : List Int) : Val → Val
+  | .int v => match args with
+    | [k, d] => .int (k * v + d)
+    | _ => .none
+  | _ => .none
+
+def parseG : List String → Option (List Int → Snap → Except Err Val)
   | ["lin", a] => do
       let a ← a.toNat?
-      pure fun args sn => match args, getAttr sn.attrs a with
-        | [k, d], .int v => .int (k * v + d)
-        | _, _ => .none
+      pure fun args sn => .ok (linVal args (getAttr sn.attrs a))
+  | ["lreq", a] => do
+      let a ← a.toNat?
+      pure fun args sn => (needAttr sn.attrs a).map (linVal args)
   | ["cnt"] => some fun args sn => match args with
-      | [k, d] => .int (k * sn.agents.length + d)
-      | _ => .none
+      | [k, d] => .ok (.int (k * sn.agents.length + d))
+      | _ => .ok .none
   | _ => none
 
-def parseA : List String → Option (Snap → AgentS → Val)
-  | ["get", a] => do let a ← a.toNat?; pure fun _ ag => getAttr ag.attrs a
-  | ["id"] => some fun _ ag => .int ag.id
+def parseA : List String → Option (Snap → AgentS → Except Err Val)
+  | ["get", a] => do let a ← a.toNat?; pure fun _ ag => .ok (getAttr ag.attrs a)
+  | ["req", a] => do let a ← a.toNat?; pure fun _ ag => needAttr ag.attrs a
+  | ["id"] => some fun _ ag => .ok (.int ag.id)
   | ["twice", a] => do
       let a ← a.toNat?
-      pure fun _ ag => match getAttr ag.attrs a with | .int v => .int (2 * v) | _ => .none
-  | ["steps"] => some fun sn _ => .int sn.steps
+      pure fun _ ag => match getAttr ag.attrs a with | .int v => .ok (.int (2 * v)) | _ => .ok .none
+  | ["steps"] => some fun sn _ => .ok (.int sn.steps)
   | _ => none
 
-def parseAG : List String → Option (List Int → Snap → AgentS → Val)
+def parseAG : List String → Option (List Int → Snap → AgentS → Except Err Val)
   | ["lin", a] => do
       let a ← a.toNat?
-      pure fun args _ ag => match args, getAttr ag.attrs a with
-        | [k, d], .int v => .int (k * v + d)
-        | _, _ => .none
+      pure fun args _ ag => .ok (linVal args (getAttr ag.attrs a))
+  | ["lreq", a] => do
+      let a ← a.toNat?
+      pure fun args _ ag => (needAttr ag.attrs a).map (linVal args)
   | _ => none
 
 def parseMRep : List String → Option MRep
   | ["attr", a] => do pure (.attr (← a.toNat?))
   | "fn" :: f => do pure (.fn (← parseF f))
+  | "part" :: f => do pure (.part (← parseF f))
   | "meth" :: f => do pure (.meth (← parseF f))
   | "args" :: k :: d :: g => do pure (.fnArgs (← parseG g) [← k.toInt?, ← d.toInt?])
   | _ => none
@@ -125,7 +144,7 @@ def parseOp : List String → Option Op
 
 def fmtErr : Err → String
   | .attr => "err Attr" | .value => "err Value" | .key => "err Key" | .unknown => "err Unknown"
-  | .missing => "err Missing" | .warn => "err Warn" | .index => "err Index"
+  | .missing => "err Missing" | .warn => "err Warn" | .index => "err Index" | .runtime => "err Runtime"
 
 def fmtRow (r : Row) : String := s!"{r.step}/{r.id}:{fmtVals r.vals}"
 
